@@ -18,7 +18,9 @@ from pathlib import Path
 ROOT = Path(__file__).resolve().parent.parent
 SPEC = ROOT / "spec"
 WORK = ROOT / ".work"
-EVID = ROOT / "evidence"
+# evidence describes runs on /repo; a run against another source tree (PYMBOLIC_SRC: seeded
+# changes, mutants) leaves /verif/evidence alone and writes next to its work files
+EVID = ROOT / "evidence" if os.environ.get("PYMBOLIC_SRC", "/repo") == "/repo" else WORK / "evidence_other_source"
 JAR = "/opt/veriftools/tla/tla2tools.jar:/opt/veriftools/tla/CommunityModules-deps.jar"
 REPO = os.environ.get("PYMBOLIC_SRC", "/repo")
 NCPU = os.cpu_count() or 4
@@ -385,7 +387,7 @@ class Outcome:
             "assumptions": self.assumptions, "wall_s": round(wall, 2),
             "violations": len({sig_key(s) for s, _ in self.violations}),
         }
-        EVID.mkdir(exist_ok=True)
+        EVID.mkdir(parents=True, exist_ok=True)
         (EVID / f"{self.prop}.json").write_text(json.dumps(ev, indent=1) + "\n")
         print(f"{self.prop} {self.tier}: states={self.states} traces={self.traces} "
               f"evaluations={self.evaluations} skipped={self.skipped} "
